@@ -148,6 +148,17 @@ def _r2(ctx):
                         skip_loop = True
             if isinstance(n, ast.AugAssign) and isinstance(n.op, ast.Mult) and dotted(n.target) in ("n_frames", "_n_frames") and src(n.value) in names:
                 scaled = True
+                # the scaling may only be guarded by tests on stride / on n_frames being None
+                x = n
+                m = ctx.py.mod(rel)
+                while x in m.parents and m.parents[x] is not fn:
+                    p_ = m.parents[x]
+                    if isinstance(p_, ast.If):
+                        t = src(p_.test)
+                        if not (t in ("stride is not None", "n_frames is None", "n_frames is not None", "stride is None") or (t.startswith("stride") and "n_frames" not in t)):
+                            ctx.violated("C02-R2", n, rel, q, "window scaling guarded by `%s`" % t,
+                                         "the window is scaled by the stride only when `%s`: for the other values of n_frames read(n_frames, stride) consumes too few frames" % t)
+                    x = p_
             if isinstance(n, ast.BinOp) and isinstance(n.op, ast.Mult):
                 s = src(n)
                 if any(x in s for x in names) and ("n_frames" in s):
@@ -311,6 +322,16 @@ def _r5(ctx):
         if unbound:
             why.append("`%s` is only bound when atom_indices is given but is used unconditionally" % tname)
         ctx.decide(ok, "C02-R5", s, rel, q, "subset paired with atom_indices", "", "; ".join(why))
+        # the atom index reaches the subscript as given (validation / dtype conversion only)
+        rdm = F.method(ctx, key, "_read" if key in ("xtc", "trr") else "read")
+        for n in walk_no_nested(rdm):
+            if isinstance(n, ast.Assign) and dotted(n.targets[0]) in ("atom_slice", "atom_indices") and not isinstance(n.value, ast.IfExp):
+                v = n.value
+                ident = (isinstance(v, ast.Call) and (call_name(v) or "").split(".")[-1] in ("ensure_type", "asarray", "array", "cast_indices", "asanyarray")
+                         and v.args and dotted(v.args[0]) in ("atom_indices", "atom_slice")) or (isinstance(v, ast.Call) and call_name(v) == "slice" and len(v.args) == 1 and const(v.args[0]) is None) \
+                    or dotted(v) in ("atom_indices", "atom_slice")
+                ctx.decide(ident, "C02-R5", n, rel, "%s.read" % cls, "atom index applied as given: `%s`" % src(n)[:50], "",
+                           "`%s` replaces the caller's atom_indices by a derived index: duplicates / unsorted indices are no longer honoured" % src(n)[:70])
         # coordinates indexed by the same atom_indices in read()
         rd = F.method(ctx, key, "_read" if key in ("xtc", "trr") else "read")
         uses = any(isinstance(n, ast.Subscript) and "atom_" in src(n.slice) for n in walk_no_nested(rd)) or \
@@ -350,6 +371,20 @@ def _r6(ctx):
                 ok = opt in txt
             ctx.decide(ok, "C02-R6", body[0] if body else fn, TRAJ, "iterload", "%s honours %s" % (desc, opt), "",
                        "iterload(%s=...) is ignored on this branch (the option is popped from kwargs and never used)" % opt)
+        if not is_file and "gsd" not in test:
+            # load(...)[skip::stride]: skip counts raw frames, so the stride must be applied after it
+            for st in body:
+                for c in ast.walk(st):
+                    if isinstance(c, ast.Call) and call_name(c) == "load":
+                        passes_stride = any(k.arg == "stride" for k in c.keywords)
+                        par = mod.parents.get(c)
+                        sl = par.slice if isinstance(par, ast.Subscript) and isinstance(par.slice, ast.Slice) else None
+                        lower = src(sl.lower) if sl is not None and sl.lower is not None else None
+                        step = src(sl.step) if sl is not None and sl.step is not None else None
+                        ok = (not passes_stride and lower == "skip" and step == "stride")
+                        ctx.decide(ok, "C02-R6", c, TRAJ, "iterload", desc + " applies skip before stride", "load(...)[skip::stride]",
+                                   "stride is applied %s and skip %s: the result is full[::stride][skip:] instead of full[skip::stride]"
+                                   % ("inside load()" if passes_stride else "as slice step %s" % step, "afterwards as [%s:]" % lower))
         if is_file:
             ok = "n_frames=chunk" in txt.replace(" ", "") or "n_frames = chunk" in txt
             ctx.decide(ok, "C02-R6", body[0], TRAJ, "iterload", desc + " reads chunk frames per iteration", "", "chunk is not passed as n_frames")
@@ -365,6 +400,17 @@ def _r6(ctx):
             if isinstance(c, ast.Call) and call_name(c) == "loader":
                 ok = any(k.arg is None and dotted(k.value) == "kwargs" for k in c.keywords)
     ctx.decide(ok, "C02-R6", fn, TRAJ, "load", "every further file loaded with **kwargs", "", "later files of a list are loaded without the caller's options")
+    patched = [n for n in walk_no_nested(fn) if isinstance(n, ast.Assign) and isinstance(n.targets[0], ast.Attribute)
+               and isinstance(n.targets[0].value, ast.Subscript) and dotted(n.targets[0].value.value) == "kwargs"]
+    for n in patched:
+        # allowed only when kwargs['top'] was replaced by a private copy before
+        copied = any(isinstance(a, ast.Assign) and isinstance(a.targets[0], ast.Subscript) and dotted(a.targets[0].value) == "kwargs" and const(a.targets[0].slice) == "top"
+                     and isinstance(a.value, ast.Call) and (src(a.value.func).endswith((".copy", "deepcopy")) or src(a.value.func) == "copy") and a.lineno < n.lineno
+                     for a in walk_no_nested(fn))
+        ctx.decide(copied, "C02-R6", n, TRAJ, "load", "`%s` acts on a private copy" % src(n.targets[0]), "",
+                   "`%s` patches the topology object the caller passed as top=: a later load with the same object silently gets the first call's atom subset" % src(n)[:70])
+    if not patched:
+        ctx.holds("C02-R6", fn, TRAJ, "load", "the caller's topology is not modified", "")
     j = _calls(fn, lambda c: call_name(c) == "join")
     ok = bool(j) and const(kwarg(j[0], "check_topology")) is False and dotted(kwarg(j[0], "discard_overlapping_frames")) == "discard_overlapping_frames"
     ctx.decide(ok, "C02-R6", j[0] if j else fn, TRAJ, "load", "join(check_topology=False, discard_overlapping_frames=...)", "", "the per-file loads are not joined as documented")
